@@ -177,6 +177,24 @@ static StepRes run_step(const Op &op, const bytes &input, const bytes &key, cons
   else
     av.insert(av.end(), {"-v", "-i", in, "-k", ks, "-n"});
   r.ret = wapi::cli_run(av, pc, input.size() / 16 + 2, NULL);
+  if (getenv("WV_DEBUG_FD"))
+  {
+    std::string l = "FD after step " + std::to_string(idx) + ":";
+    if (DIR *d = opendir("/proc/self/fd"))
+    {
+      while (struct dirent *e = readdir(d))
+        if (e->d_name[0] >= '0' && e->d_name[0] <= '9')
+        {
+          char tgt[256];
+          std::string pth = std::string("/proc/self/fd/") + e->d_name;
+          ssize_t k = readlink(pth.c_str(), tgt, sizeof tgt - 1);
+          tgt[k > 0 ? k : 0] = 0;
+          l += std::string(" ") + e->d_name + "=" + tgt;
+        }
+      closedir(d);
+    }
+    fprintf(stderr, "%s\n", l.c_str());
+  }
   std::string of = read_file(out);
   r.out.assign(of.begin(), of.end());
   unlink(in.c_str());
@@ -203,7 +221,10 @@ static Verdict run_c15(const Case &c)
     ops.push_back(Op::parse(c.get("op" + std::to_string(i))));
   static uint64_t seq = 0;
   std::string base = scratch() + "/c15-" + std::to_string(getpid()) + "-" + std::to_string(seq++);
-  bool tightfd = c.geti("tightfd") != 0;
+  // only under the deterministic scheduler (one thread runs at a time): UBSan's vptr check probes memory through a
+  // pipe() on every type-cache miss, so T real worker threads may need 2T descriptors at once and, when they do
+  // not get them, report bogus type errors (false alarm 11.6)
+  bool tightfd = c.geti("tightfd") != 0 && wapi::has_scheduler();
   auto quiet = [tightfd] {
     int dn = open("/dev/null", O_WRONLY);
     if (dn >= 0)
@@ -214,27 +235,38 @@ static Verdict run_c15(const Case &c)
     }
     if (tightfd)
     {
-      // the same descriptor limit for the history and for every fresh process: room for six descriptors beyond
-      // those already open (an operation needs input + output + one transient). A descriptor that an
+      // the same descriptor limit for the history and for every fresh process: room for eight descriptors beyond
+      // those already open (an operation needs input + output, the sanitizer a pipe, one transient). A descriptor that an
       // operation fails to give back then changes the result of a later operation within a short history.
-      int hi = 2;
+      // RLIMIT_NOFILE bounds descriptor NUMBERS: choose the smallest limit that leaves exactly eight free
+      // numbers below it, whatever gaps the inherited descriptors have
+      std::vector<bool> used(4096, false);
       if (DIR *d = opendir("/proc/self/fd"))
       {
         int self = dirfd(d);
         while (struct dirent *e = readdir(d))
         {
           int fd = atoi(e->d_name);
-          if (e->d_name[0] >= '0' && e->d_name[0] <= '9' && fd != self && fd > hi)
-            hi = fd;
+          if (e->d_name[0] >= '0' && e->d_name[0] <= '9' && fd != self && fd >= 0 && fd < 4096)
+            used[(size_t)fd] = true;
         }
         closedir(d);
       }
+      int limit = 0, freeslots = 0;
+      while (limit < 4096 && freeslots < 8)
+        if (!used[(size_t)limit++])
+          freeslots++;
+      for (int fd = limit; fd < 4096; fd++)
+        if (used[(size_t)fd])
+          limit = fd + 1; // never below a descriptor that is already open (keeps the limit legal for them)
       struct rlimit rl;
       if (getrlimit(RLIMIT_NOFILE, &rl) == 0)
       {
-        rl.rlim_cur = (rlim_t)(hi + 1 + 6);
+        rl.rlim_cur = (rlim_t)limit;
         setrlimit(RLIMIT_NOFILE, &rl);
       }
+      if (getenv("WV_DEBUG_FD"))
+        fprintf(stderr, "FD limit=%d\n", limit);
     }
   };
   if (tightfd)
